@@ -149,9 +149,12 @@ func (d *Dynamic) Draw(ctx vxfw.DrawContext) (vxfw.Surface, error) {
 		if err != nil {
 			return s, err
 		}
-		// Get the last child so we can set our accumulated height
-		last := s.Children[len(s.Children)-1]
-		ah = last.Origin.Row + int(last.Surface.Size.Height)
+		// Get the last child so we can set our accumulated height. There
+		// is none if the builder had no widget above the top one
+		if len(s.Children) > 0 {
+			last := s.Children[len(s.Children)-1]
+			ah = last.Origin.Row + int(last.Surface.Size.Height)
+		}
 	}
 
 	var colOffset int
